@@ -2,9 +2,46 @@ package main
 
 import (
 	"go/ast"
+	"go/token"
 	"go/types"
 	"strings"
 )
+
+// c15ScanLoop: the (*bufio.Scanner).Scan() call that heads a line loop — `for s.Scan() { … }` or the
+// same loop spelled `for { if !s.Scan() { break }; … }`. rest is the loop body after the header test.
+func c15ScanLoop(info *types.Info, fs *ast.ForStmt) (call *ast.CallExpr, rest []ast.Stmt) {
+	isScan := func(e ast.Expr) *ast.CallExpr {
+		cl, ok := unparen(e).(*ast.CallExpr)
+		if !ok {
+			return nil
+		}
+		if fn, ok := callee(info, cl).(*types.Func); ok && fn.Name() == "Scan" && fn.Pkg() != nil && fn.Pkg().Path() == "bufio" {
+			return cl
+		}
+		return nil
+	}
+	if fs.Init != nil || fs.Post != nil {
+		return nil, nil
+	}
+	if fs.Cond != nil {
+		return isScan(fs.Cond), fs.Body.List
+	}
+	if len(fs.Body.List) == 0 {
+		return nil, nil
+	}
+	ifs, ok := fs.Body.List[0].(*ast.IfStmt)
+	if !ok || ifs.Init != nil || ifs.Else != nil || len(ifs.Body.List) != 1 {
+		return nil, nil
+	}
+	if br, ok := ifs.Body.List[0].(*ast.BranchStmt); !ok || br.Tok != token.BREAK || br.Label != nil {
+		return nil, nil
+	}
+	not, ok := unparen(ifs.Cond).(*ast.UnaryExpr)
+	if !ok || not.Op != token.NOT {
+		return nil, nil
+	}
+	return isScan(not.X), fs.Body.List[1:]
+}
 
 // R15e — "with the element bound verbatim": a line-splitting array reader
 // (`for scanner.Scan() { … callback(<line>) … }`) must hand the scanned line to the
@@ -47,15 +84,11 @@ func init() {
 				}
 				ast.Inspect(fd.Body, func(nd ast.Node) bool {
 					fs, ok := nd.(*ast.ForStmt)
-					if !ok || fs.Cond == nil {
-						return true
-					}
-					call, ok := unparen(fs.Cond).(*ast.CallExpr)
 					if !ok {
 						return true
 					}
-					fn, ok := callee(info, call).(*types.Func)
-					if !ok || fn.Name() != "Scan" || fn.Pkg() == nil || fn.Pkg().Path() != "bufio" {
+					call, _ := c15ScanLoop(info, fs)
+					if call == nil {
 						return true
 					}
 					se, _ := unparen(call.Fun).(*ast.SelectorExpr)
